@@ -31,6 +31,8 @@ func runC02(c *core.Ctx) {
 	c.Clause("C02.5 truncation only at a proven conflict, above the snapshot, by a follower; log reset only on snapshot installation")
 	h.truncationOnlyAtConflict("C02.5 truncation")
 	h.entrySkipAndKeep("C02.5b skip-and-keep")
+	c.Clause("C02.5c the match index the commit rule counts rises only by what a success reply acknowledged for the request it answers (a follower's reported last index says nothing about whose entries it holds)")
+	h.matchIndexOnlyOnSuccess("C02.5c matchIndex")
 	c.Clause("C02.6 a new configuration is appended only when the previous one is committed and an own-term entry is committed")
 	h.configChangeGates("C02.6 config-gates")
 	c.Clause("C02.7 what the up-to-date check compares after a restart is the last entry or the snapshot label: the latest snapshot's term is loaded with its index, before storage derives lastLogTerm from it")
